@@ -20,8 +20,8 @@ EXTENDS Integers, Sequences, FiniteSets, TLC
 CONSTANTS Base,       \* base-unit tokens
           bdim,       \* Base -> [Fund -> Int]
           Fund,
-          Cands,      \* sequence of candidate declarations [l |-> base, pv |-> <<i,j,k>>, p |-> Int, r |-> bag]:
-                      \*   1 l = 2^i 3^j 5^k * 10^p * PROD r
+          Cands,      \* sequence of candidate declarations [l |-> base, lp |-> Int, pv |-> <<i,j,k>>, p |-> Int, r |-> bag]:
+                      \*   1 (10^lp l) = 2^i 3^j 5^k * 10^p * PROD r      i.e. (Prefix(10,lp)*l).equals(k * Prefix(10,p)*r)
           Roots       \* bases whose size is 1 by convention (one per connected component is enough)
 
 VARIABLES decl,       \* sequence of indices into Cands, in declaration order
@@ -53,7 +53,8 @@ RECURSIVE SumSize(_, _, _)
 SumSize(S, f, size) == IF S = {} THEN PV0
                        ELSE LET b == CHOOSE x \in S : TRUE IN Add(Scale(f[b], size[b]), SumSize(S \ {b}, f, size))
 BagSize(f, size) == SumSize(Support(f), f, size)
-Rhs(c, size) == Add(Add(c.pv, Ten(c.p)), BagSize(c.r, size))
+\* the size the declaration gives to its (unprefixed) left unit
+Rhs(c, size) == Add(Add(Add(c.pv, Ten(c.p)), BagSize(c.r, size)), Neg(Ten(c.lp)))
 
 \* a declaration is usable when exactly one of the bases it mentions is still unsized and that
 \* base occurs with exponent +1 or -1 (or is the left side)
@@ -73,7 +74,7 @@ Solve(size, pending) ==
                    THEN Rhs(c, size)
                    ELSE \* size[l] = pv + 10^p + rest + e*size[x]  =>  size[x] = (size[l] - pv - 10^p - rest) / e
                         LET rest == BagSize([c.r EXCEPT ![x] = 0], size)
-                            num  == Add(size[c.l], Neg(Add(Add(c.pv, Ten(c.p)), rest)))
+                            num  == Add(Add(size[c.l], Ten(c.lp)), Neg(Add(Add(c.pv, Ten(c.p)), rest)))
                         IN IF c.r[x] = 1 THEN num ELSE Neg(num)
           IN Solve(size @@ (x :> v), pending \ {i})
 
@@ -109,7 +110,7 @@ Ev(op, i, u, v, out, pv, m) == [op |-> op, i |-> i, u |-> u, v |-> v, out |-> ou
 Declare(i) ==
   /\ i \notin Declared
   /\ decl' = Append(decl, i)
-  /\ ev' = Ev("declare", i, Single(Cands[i].l), U(Cands[i].p, Cands[i].r), "ok", Cands[i].pv, 0)
+  /\ ev' = Ev("declare", i, U(Cands[i].lp, Single(Cands[i].l).f), U(Cands[i].p, Cands[i].r), "ok", Cands[i].pv, 0)
   /\ hist' = Append(hist, ev')
 
 \* node query: outcome fully prescribed
